@@ -49,7 +49,29 @@ func ruleR23() *Rule {
 				}
 				return nil
 			}
-			idxCell, mapCell, exclCell := cellFor(0), cellFor(1), cellFor(3)
+			// by type, not by position (a later result may have been inserted): the native index, the table
+			// vector id -> document, the list of vector ids
+			ri, rm, rx := 0, 1, 3
+			if res := loc.Call.Signature().Results(); res != nil {
+				for i := 0; i < res.Len(); i++ {
+					t := res.At(i).Type()
+					switch u := t.Underlying().(type) {
+					case *types.Pointer:
+						if isFaissIndexPtr(t) {
+							ri = i
+						}
+					case *types.Map:
+						if kt, ok := u.Key().Underlying().(*types.Basic); ok && kt.Kind() == types.Int64 {
+							rm = i
+						}
+					case *types.Slice:
+						if et, ok := u.Elem().Underlying().(*types.Basic); ok && et.Kind() == types.Int64 {
+							rx = i
+						}
+					}
+				}
+			}
+			idxCell, mapCell, exclCell := cellFor(ri), cellFor(rm), cellFor(rx)
 			if idxCell == nil || mapCell == nil || exclCell == nil {
 				c.undecided("anchor/result-cells", c.pos(loc), "the variables holding the cached index, the id->doc map and the exclusion list are found", "results of loadOrCreate are not assigned to captured variables")
 				return
@@ -314,12 +336,64 @@ func ruleR23() *Rule {
 					}
 					return isLoadOfField(v, "SegmentBase", "numDocs")
 				}
+				lenOperand := func(v ssa.Value) ssa.Value {
+					for i := 0; i < 3; i++ {
+						if cv, ok := v.(*ssa.Convert); ok {
+							v = cv.X
+							continue
+						}
+						break
+					}
+					call, ok := v.(*ssa.Call)
+					if !ok {
+						return nil
+					}
+					if b, ok := call.Call.Value.(*ssa.Builtin); !ok || b.Name() != "len" {
+						return nil
+					}
+					return call.Call.Args[0]
+				}
+				isLenIncluded := func(v ssa.Value) bool {
+					a := lenOperand(v)
+					if a == nil {
+						return false
+					}
+					sl, ok := a.Type().Underlying().(*types.Slice)
+					if !ok {
+						return false
+					}
+					if bt, ok := sl.Elem().Underlying().(*types.Basic); !ok || bt.Kind() != types.Int64 {
+						return false
+					}
+					return derivedFrom(a, elig, 0, map[ssa.Value]bool{})
+				}
+				isLenVecTable := func(v ssa.Value) bool {
+					a := lenOperand(v)
+					if a == nil {
+						return false
+					}
+					m, ok := a.Type().Underlying().(*types.Map)
+					if !ok {
+						return false
+					}
+					kt, ok1 := m.Key().Underlying().(*types.Basic)
+					et, ok2 := m.Elem().Underlying().(*types.Basic)
+					return ok1 && ok2 && kt.Kind() == types.Int64 && et.Info()&types.IsInteger != 0
+				}
 				condTr := func(cond ssa.Value, outcome bool, ev uint64, actual func(ssa.Value) ssa.Value) uint64 {
 					bo, ok := cond.(*ssa.BinOp)
 					if !ok || (bo.Op != token.EQL && bo.Op != token.NEQ) {
 						return ev
 					}
 					if (isLenElig(bo.X, actual) && isNumDocs(bo.Y)) || (isLenElig(bo.Y, actual) && isNumDocs(bo.X)) {
+						if (bo.Op == token.EQL) == outcome {
+							return ev | 1
+						}
+						return ev &^ 1
+					}
+					// the same question asked of the vectors: the list of vector ids collected from the eligible
+					// documents is as long as the table vector id -> document (every vector of the field is in it)
+					if (isLenIncluded(bo.X) && isLenVecTable(bo.Y)) || (isLenIncluded(bo.Y) && isLenVecTable(bo.X)) {
 						if (bo.Op == token.EQL) == outcome {
 							return ev | 1
 						}
@@ -511,6 +585,33 @@ func r23ExclusionLookedAt(c *RuleCtx) {
 			if isNilConst(returnedValue(ret, idxRes)) {
 				continue
 			}
+			// the list handed out is one the caller computed and handed in: every caller computed it from
+			// its own exclusion bitmap
+			if lp, ok := root(returnedValue(ret, listRes)).(*ssa.Parameter); ok && lp.Parent() == fn {
+				pi := -1
+				for i, q := range fn.Params {
+					if q == lp {
+						pi = i
+					}
+				}
+				sites := c.p.callersOf(fn)
+				allOK := pi >= 0 && len(sites) > 0
+				for _, cs := range sites {
+					g := cs.Parent()
+					var e2 *ssa.Parameter
+					for _, q := range g.Params {
+						if pt, ok := q.Type().Underlying().(*types.Pointer); ok && isBitmapPtr(pt.Elem()) {
+							e2 = q
+						}
+					}
+					if e2 == nil || pi >= len(cs.Common().Args) || !derivedFrom(cs.Common().Args[pi], e2, 0, map[ssa.Value]bool{}) {
+						allOK = false
+					}
+				}
+				if allOK {
+					continue
+				}
+			}
 			for _, ev := range pa.statesBefore(ret) {
 				if ev&1 == 0 {
 					okc = false
@@ -523,4 +624,60 @@ func r23ExclusionLookedAt(c *RuleCtx) {
 			"a path hands out the shared index with an exclusion list that cannot depend on this call's exclusion bitmap", props, uniq(wit))
 	}
 	c.add(statusOf(n >= 2), "exclusion-looked-at/sites", "-", "functions that take the per-call exclusion bitmap and hand out an index with an exclusion list are found (pinned tree: loadOrCreate, loadFromCache, createAndCacheLOCKED)", fmt.Sprintf("found %d", n), props, nil)
+}
+
+// derivedFrom: v is built from elements of src — through appends, look-ups keyed by them, ranges, phis,
+// local variables.
+func derivedFrom(v, src ssa.Value, depth int, seen map[ssa.Value]bool) bool {
+	if v == nil || depth > 12 || seen[v] {
+		return false
+	}
+	seen[v] = true
+	if v == src || root(v) == src {
+		return true
+	}
+	rec := func(x ssa.Value) bool { return derivedFrom(x, src, depth+1, seen) }
+	switch x := v.(type) {
+	case *ssa.Phi:
+		for _, e := range x.Edges {
+			if rec(e) {
+				return true
+			}
+		}
+	case *ssa.Call:
+		for _, a := range x.Call.Args {
+			if rec(a) {
+				return true
+			}
+		}
+	case *ssa.Lookup:
+		return rec(x.Index) || rec(x.X)
+	case *ssa.Extract:
+		return rec(x.Tuple)
+	case *ssa.Next:
+		return rec(x.Iter)
+	case *ssa.Range:
+		return rec(x.X)
+	case *ssa.Convert:
+		return rec(x.X)
+	case *ssa.ChangeType:
+		return rec(x.X)
+	case *ssa.Slice:
+		return rec(x.X)
+	case *ssa.IndexAddr:
+		return rec(x.X)
+	case *ssa.UnOp:
+		if x.Op == token.MUL {
+			if cell := cellOf(x.X); cell != nil {
+				for _, st := range cellStores(cell) {
+					if rec(st.Val) {
+						return true
+					}
+				}
+				return false
+			}
+		}
+		return rec(x.X)
+	}
+	return false
 }
